@@ -448,15 +448,18 @@ class _Guards:
             if "var" in n:
                 self.stmt(n["var"], g)
             self.expr(n.get("c"), g)
-            self.stmt(n.get("t"), g + ((n.get("c"), True),))
+            ex_t = self.stmt(n.get("t"), g + ((n.get("c"), True),)) or ()
+            ex_e = ()
             if "e" in n:
-                self.stmt(n["e"], g + ((n.get("c"), False),))
+                ex_e = self.stmt(n["e"], g + ((n.get("c"), False),)) or ()
             t_term = terminates(n.get("t"))
             e_term = terminates(n.get("e")) if "e" in n else False
+            # what holds after the statement: the branch that can fall through, plus what held at its end
+            # (`if (a) return; else if (b) return; else if (c) return;` leaves !a, !b, !c)
             if t_term and not e_term:
-                return ((n.get("c"), False),)
+                return ((n.get("c"), False),) + tuple(ex_e)
             if e_term and not t_term:
-                return ((n.get("c"), True),)
+                return ((n.get("c"), True),) + tuple(ex_t)
             return ()
         if k in ("while", "for"):
             if "i" in n:
